@@ -113,7 +113,8 @@ where
                         }
                         match decoded {
                             Ok(Some(item)) => return Poll::Ready(Some(Ok(item))),
-                            Ok(None) => return Poll::Pending,
+                            // not enough for a frame yet: poll the socket again (it registers the waker), never park without one
+                            Ok(None) => continue,
                             Err(e) => return Poll::Ready(Some(Err(e))),
                         }
                     }
